@@ -149,6 +149,19 @@ func VerifC07() {
 			c := at[depths[i]-1].Add(names[i])
 			at = append(at[:depths[i]], c)
 		}
+		// the same tree may have been printed or walked before (operations that assemble branches and paths without
+		// validating names): what they leave in the nodes must not spare the mkdir call its own validation
+		pregrow := uint(0)
+		if (route == 2 || route == 7) && verifN()%10 <= 2 {
+			// (names of up to two bytes are enough for '..', '.', '/' and 'a/'; the three-byte jobs stay as they were)
+			pregrow = verifChoose("pregrow", 0, 2)
+		}
+		switch pregrow {
+		case 1:
+			_ = OutputFromRoot(newVerifWriter(), root)
+		case 2:
+			_ = WalkFromRoot(root, func(*WalkerNode) error { return nil })
+		}
 		opts := []Option{WithTargetDir(target), WithFileExtensions(exts)}
 		if withEnc {
 			opts = append(opts, WithEncodeYAML())
